@@ -292,3 +292,5 @@ func (s *Sess) Shutdown() {
 	s.ln.Close()
 	synctest.Wait()
 }
+
+func time1(i int) time.Duration { return time.Duration(i+1) * 37 * time.Minute }
